@@ -32,16 +32,47 @@ ASSUMPTIONS = [
 ]
 
 
+class RecordArray(np.ndarray):
+    """A plain ndarray subclass (stands for np.memmap, masked arrays, astropy/pint quantities ...)."""
+
+
+class ArrayLike(object):
+    """A pandas-like column: not an ndarray, exposes its buffer through __array__ without copying."""
+
+    def __init__(self, a):
+        self.a = np.array(a, dtype=float)
+
+    def __array__(self, dtype=None, copy=None):
+        # NumPy 2 protocol: copy=True must copy (np.array), copy=None/False may hand out the buffer (np.asarray)
+        out = self.a if dtype is None else self.a.astype(dtype, copy=False)
+        return out.copy() if copy else out
+
+    def __len__(self):
+        return len(self.a)
+
+    def __getitem__(self, i):
+        return self.a[i]
+
+    def __setitem__(self, i, v):
+        self.a[i] = v
+
+
 def _container(spec, how):
     a = gen.build(spec)
     if how == "int":
         return np.array(np.round(a * 8), dtype=np.int64)
     if how == "list":
         return [float(v) for v in a]
+    if how == "subclass":
+        return np.array(a, dtype=float).view(RecordArray)
+    if how == "arraylike":
+        return ArrayLike(a)
     return np.array(a, dtype=float)
 
 
 def _snap(x):
+    if isinstance(x, ArrayLike):
+        return ("arraylike", _snap(x.a))
     if isinstance(x, np.ndarray):
         return ("nd", x.dtype.str, x.shape, x.tobytes())
     if isinstance(x, list):
@@ -113,7 +144,7 @@ class Own(object):
             if isinstance(arr, np.ndarray) and arr.dtype.kind == "i":
                 arr[i] = int(args["v"])
             else:
-                arr[i] = float(args["v"])
+                arr[i] = float(args["v"])  # (ArrayLike forwards the write to its buffer)
             self.snap[k] = _snap(arr)
             after = _snap(self.obj.values if isinstance(self.obj.values, np.ndarray) else list(self.obj.values))
             ctx.check(before == after, "a caller write into its own container %s changed the signal's values" % k)
@@ -146,7 +177,7 @@ class Own(object):
 HM = history_machine_base()
 _small = gen.record_specs(min_n=40, max_n=120, small_max=60, kinds=["noise", "sines", "walk", "dyadic", "vals"], amp_lo=-2, amp_hi=2,
                           allow_zero_runs=False)
-_how = st.sampled_from(["float", "float", "int", "list"])
+_how = st.sampled_from(["float", "float", "int", "list", "subclass", "arraylike"])
 
 
 class OwnMachine(HM):
@@ -398,6 +429,16 @@ def _registry(E):
         "Signal.add_series": (lambda arr: _on_fresh(E, lambda o: (o.add_series(arr), np.array(o.values))[1]), (E["af"],), {}),
         "Signal.add_signal": (lambda other: _on_fresh(E, lambda o: (o.add_signal(other), np.array(o.values))[1]), (bsig,), {}),
         "Signal.reset_values": (lambda arr: _on_fresh(E, lambda o: (o.reset_values(arr), np.array(o.values))[1]), (E["af"],), {}),
+        # the time step as a 0-d ndarray (what np.load / np.loadtxt return for a stored scalar): it is an argument like any other
+        "time_step.interp_array_to_approx_dt(0-d dt)": (f_tstep.interp_array_to_approx_dt, (a, E["dt0"]), {"target_dt": dt / 2.5}),
+        "time_step.interp_array_to_approx_dt(0-d dt, decimate)": (f_tstep.interp_array_to_approx_dt, (a, E["dt0"]), {"target_dt": dt * 2.5, "even": False}),
+        "disp.calc_velo_and_disp(0-d dt)": (disp_mod.calc_velo_and_disp_from_accel_arr, (a, E["dt0"]), {}),
+        "sdof.response_series(0-d dt)": (sdof.response_series, (a, E["dt0"], T, 0.05), {}),
+        "sdof.pseudo_response_spectra(0-d dt)": (sdof.pseudo_response_spectra, (E["af"], E["dt0"], T, 0.05), {}),
+        "AccSignal(0-d dt).s_a": (lambda d0: (lambda o: (np.array(o.s_a), np.array(o.time), o.pgv, float(o.dt)))(
+            eqsig.AccSignal(np.array(E["af"]), d0, response_times=np.array([3 * dt, 9 * dt, 30 * dt]))), (E["dt0"],), {}),
+        "interp_to_approx_dt(AccSignal with 0-d dt)": (lambda d0: (lambda o: (f_tstep.interp_to_approx_dt(o, target_dt=dt / 3), float(o.dt)))(
+            eqsig.AccSignal(np.array(E["af"]), d0)), (E["dt0"],), {}),
         "loader.save_signal": (loader.save_signal, (_tmpfile(), asig), {}),
         "loader.save_values_and_dt": (loader.save_values_and_dt, (_tmpfile(), a, dt, "lab"), {}),
     }
@@ -491,7 +532,7 @@ def _pure_one(case, ctx, how):
          "bexp": np.array([0.2, 0.34, 0.5]), "xf": np.arange(6, dtype=float), "ftab": rs.standard_normal((6, 3)),
          "xq": np.array([-0.5, 0.0, 1.25, 4.0, 5.5]), "xq_in": np.array([0.0, 1.25, 4.0, 5.0]), "ycol": rs.standard_normal(6),
          "stock": stockwell.transform(af),
-         "asig_even": eqsig.AccSignal(np.array(af[:2 * (n // 2)]), dt), "apos": np.abs(af) + 1.0,
+         "asig_even": eqsig.AccSignal(np.array(af[:2 * (n // 2)]), dt), "apos": np.abs(af) + 1.0, "dt0": np.array(dt),
          "fresh_asig": (lambda: eqsig.AccSignal(np.array(af), dt)),
          "T_desc": np.array([40 * dt, 12 * dt, 3 * dt]), "T_mixed": np.array([12 * dt, 40 * dt, 3 * dt, 25 * dt]),
          "F_desc": np.array([20.0, 5.0, 1.0, 0.3]), "cut": np.array([0.05 / dt * 0.2, 0.05 / dt * 2.0])}
